@@ -11,6 +11,7 @@
 #include <iostream>
 #include <set>
 #include <sstream>
+#include <sys/resource.h>
 #include <sys/stat.h>
 #include <sys/wait.h>
 #include <unistd.h>
@@ -53,7 +54,7 @@ std::vector<PropSpec> const& props()
             "plans of scenario lattice (PLAIN / VEGAS on uniform, user and adapted grids / multi-channel with rational and adapted weights) driven by a scripted midpoint-lattice engine; non-trivial = VEGAS or multi-channel plan that reached the exactness comparison; distinct = distinct plan shape hashes"},
         {"C02", {{"history", 55}, {"mpi", 10}, {"restart", 10}, {"poison", 10}, {"bins", 15}}, 50000, 2000000, "exploration",
             "runs whose complete call log is checked against every result field; non-trivial = more than one iteration, or zero-valued evaluations, or an injected fault; distinct = distinct plan shape hashes"},
-        {"C03", {{"restart", 85}, {"fscrash", 15}}, 40000, 1600000, "fault_enumeration",
+        {"C03", {{"restart", 78}, {"fscrash", 12}, {"mpi", 10}}, 40000, 1600000, "fault_enumeration",
             "per plan every non-empty subset of the s-1 iteration boundaries (all 2^(s-1)-1 for s <= 6, 25 sampled beyond) is executed as interruption set, each interruption either clean or a kill inside the following iteration; non-trivial = plan whose reference run has at least two iterations; distinct = distinct plan shape hashes"},
         {"C04", {{"mpi", 100}}, 10000, 400000, "exploration",
             "shim-MPI runs (1..33 ranks) under seeded arrival order, reduction order and stalls, each iteration compared with the public serial iteration; non-trivial = more than one rank; distinct = distinct plan shape hashes (distinct interleavings reported separately)"},
@@ -203,10 +204,18 @@ std::string verif_dir()
 // worker
 
 int worker_main(std::string const& prop, int tier, u64 seed, u64 start, u64 stride, u64 count,
-    std::string const& outpath, double deadline)
+    std::string const& outpath, double deadline, bool san)
 {
     PropSpec const* ps = find_prop(prop);
     if (ps == nullptr) return 3;
+    if (!san)
+    {
+        // a garbage size read from a damaged file must end in std::bad_alloc, not in the OOM killer
+        // (the sanitizer flavour needs its huge address space)
+        struct rlimit lim;
+        lim.rlim_cur = lim.rlim_max = 24ULL << 30;
+        setrlimit(RLIMIT_AS, &lim);
+    }
     FILE* out = std::fopen(outpath.c_str(), "a");
     if (out == nullptr) return 3;
     std::string const inflight = outpath + ".inflight";
@@ -1185,7 +1194,7 @@ int main(int argc, char** argv)
     {
         return worker_main(a[2], std::atoi(a[3].c_str()), std::strtoull(a[4].c_str(), nullptr, 10),
             std::strtoull(a[5].c_str(), nullptr, 10), std::strtoull(a[6].c_str(), nullptr, 10),
-            std::strtoull(a[7].c_str(), nullptr, 10), a[8], std::strtod(a[9].c_str(), nullptr));
+            std::strtoull(a[7].c_str(), nullptr, 10), a[8], std::strtod(a[9].c_str(), nullptr), a[10] == "san");
     }
 
     char const* envseed = std::getenv("VERIF_SEED");
